@@ -20,9 +20,5 @@ func Intn(s0, s1 uint64, n int) (int, uint64, uint64) {
 		panic("invalid n <= 0")
 	}
 	v, newS0, newS1 := GenerateAndAdvance(s0, s1)
-	k := int(v)
-	if k < 0 {
-		k = -k
-	}
-	return k % n, newS0, newS1
+	return int(v % uint64(n)), newS0, newS1
 }
